@@ -184,37 +184,44 @@ FRAGMENT = ('fragment of Props/TierC5.v (TierC4.v: the same but no snapshot refu
             'size (entries sent in pieces), log compaction and snapshot install on voters and read-only nodes, read-only nodes, drops, '
             'losses, any clocks allowed')
 PARTIAL = {
-    'C01': ['state-machine safety across nodes is a theorem only for the ' + FRAGMENT + '; with membership change '
+    'C01': ['state-machine safety across nodes and "every voter\'s object state is the replay of a prefix of one cluster-wide '
+            'sequence" (Props/TierC6.v) are theorems only for the ' + FRAGMENT + '; read-only nodes are inside the fragment as '
+            'actors but the one-common-sequence theorem speaks of voters; with membership change '
             'or restarts it rests on the handler-level theorems, the correspondence and the monitor'],
     'C02': ['"SUCCESS means committed and never undone": C02_success_is_committed_core2_partial - the entry whose application fired a '
             'SUCCESS callback sits at an index <= commit with the term it was subscribed with, and every voter that later commits that '
             'index holds the same entry - and C02_success_is_committed_core2_direct - for a command that was never forwarded that entry '
             'carries the submitted command - both for the fragment of Props/TierC2.v (static membership, no dump file, commands smaller than a '
             'batch, voters never restart; compaction and snapshot install included); C02_success_is_committed_core3_forwarded covers forwarded '
-            'commands of voters on the fragment of Props/TierC3.v; for a read-only node that restarts under the same identity it is '
+            'commands of voters on the fragment of Props/TierC3.v; Props/C02b.v repeats the three statements for the fragment of '
+            'Props/TierC5.v (dump files, chunked entries, refused snapshots); for a read-only node that restarts under the same identity it is '
             'refuted (request ids restart at 1: C02_..._forwarded_readonly_refuted; the real transport gives a restarted observer a '
             'new identity); outside the fragment: correspondence + monitor'],
     'C03': ['election safety: all runs with static membership, no dump file, no restart of voters; leader completeness: ' + FRAGMENT],
     'C04': ['majority-backed commit and log matching across nodes: ' + FRAGMENT + '; applied index monotone: every message handler and '
             'every tick except the restart path (first tick after a restart loads the dump)'],
     'C05': ['liveness under randomised election timeouts is not proved; convergence is searched for (quiet period after fault histories), '
-            'the named sub-properties are theorems'],
+            'the named sub-properties are theorems; the election part is proved as a deterministic schedule (Props/C05b.v: '
+            'C05_election_resolves for every cluster size, split votes do not wedge), not as a timed statement'],
     'C06': ['kills inside one storage primitive, power loss and fsync are not modelled; kills between primitives inside a step run on the '
             'implementation under the monitor only (the model steps are atomic)'],
     'C07': ['the restart clauses of the property are false of the code (term and vote are not persisted): refuted with witnesses, listed '
             'as KF-C07-1/2; without restarts one vote per term and term monotone are theorems'],
     'C09': ['fork mode and user-supplied serializer functions: implementation under the monitors only; "the snapshot a node holds '
             'agrees with what any voter committed at that position" (L1_snapshot_agrees_core2) is proved for the ' + FRAGMENT],
-    'C10': ['joint safety under membership change (C10_safety_under_change_full) is not proved: gate, one pending change, member set = fold '
-            'of the log, single-change majorities intersect are theorems; dynamic membership together with journal files and member '
-            'restarts is outside the generators'],
+    'C10': ['joint safety under membership change (C10_safety_under_change_full) is not proved on the model of the code: gate, one '
+            'pending change, member set = fold of the log, single-change majorities intersect are theorems; with a re-used address it '
+            'is FALSE (known finding KF-C10-1: witness readded_address_partial_replay, refutation in coq/AbstractM/Examples.v); without '
+            're-use a proof is under way on an abstract Raft with membership (coq/AbstractM, no refinement from the model of the code '
+            'yet); dynamic membership together with journal files and member restarts is outside the generators'],
     'C12': [],
     'C18': ['non-interference of read-only nodes is refuted in one respect (a voter whose only connection is an observer starts '
             'elections: C18_noninterference_refuted) and proved for the leader phase; what the property states (no vote, no leadership, '
             'never counted) is proved for all reachable states'],
     'C20': ['"no commit while cut off": commit bound for every reachable leader state (C20_no_commit_when_cut_reachable) and no SUCCESS '
             'for a callback waiting on an index above the frozen majority (C20_no_success_when_cut); with K = the leader\'s log end '
-            '(nothing submitted after the cut is acknowledged: C20_no_success_when_cut_full) on the fragment of Props/TierC3.v, where '
+            '(nothing submitted after the cut is acknowledged: C20_no_success_when_cut_full on the fragment of Props/TierC3.v, '
+            'C20_no_success_when_cut_full_core5 in Props/C20b.v on the fragment of Props/TierC5.v), where '
             'commit <= log end and match_idx <= log end are proved (C20_leader_bounds); C20_bound_reachable_full has no state '
             'hypothesis left'],
 }
